@@ -114,6 +114,27 @@ STRUCT_CASES = [
 ]
 
 
+# two walkers of one multiple-walker metadynamics run one after the other in one directory (the second finds the first in the registry and
+# reads its files): (newHillFrequency of the first, of the second, replicaUpdateFrequency of the second)
+WALK_CASES = [(2, 0, 3), (2, 2, 3), (0, 2, 2), (1, 0, 1), (3, 5, 2)]
+
+
+def walk_scenario(work, idx, f0, f1, upd):
+    d = os.path.join(work, "walk%d" % idx)
+    cv = "colvar {\n name r\n width 0.5\n distanceZ {\n  main { atomNumbers 1 }\n  ref { dummyAtom (0.0, 0.0, 0.0) }\n }\n}\n"
+    def bias(w, f, u):
+        return ("metadynamics {\n name b\n colvars r\n hillWeight 0.2\n hillWidth 2.0\n newHillFrequency %d\n useGrids off\n multipleReplicas on\n"
+                " replicaID w%d\n replicasRegistry reg.txt\n replicaUpdateFrequency %d\n}\n" % (f, w, u))
+    L = ["m.new 1", "M.noclock", "m.chdir " + d, cfg(cv + bias(0, f0, 3)), "m.opt prefix w0out"]
+    for t in range(8):
+        L += [pos(0, 0.0, 0.0, 0.1 * t), "m.step"]
+    L += ["m.new 1", "M.noclock", cfg(cv + bias(1, f1, upd)), "m.opt prefix w1out"]
+    for t in range(8):
+        L += [pos(0, 0.0, 0.0, 0.05 * t), "m.step"]
+    L += ["m.counts"]
+    return L
+
+
 def scenario(work, idx, text, rng, via_script=False, pre=None):
     prefix = os.path.join(work, "o%d" % idx)
     L = []
@@ -236,7 +257,13 @@ def gen(rng, tier):
         elif kind == "moving":
             ch, ns = rng.randint(0, 1), rng.randint(0, 4)
             t = "harmonic {\n name vb\n colvars r\n centers 0.5\n forceConstant 2.0\n"
-            if ch:
+            if k % 10 == 2:
+                ch = 1                                # directed: every other moving case leaves the keyword out
+            omit = ch and (k % 10 == 2 or rng.rand() < 0.3)
+            if omit:
+                ns = 0                                # the keyword left out: the default (0 steps) must be rejected like an explicit 0
+                t += " targetCenters 1.0\n" + (" targetNumStages 2\n" if k % 20 == 2 else "")     # (staged: the remainder by the number of steps is an integer one)
+            elif ch:
                 t += " targetCenters 1.0\n targetNumSteps %d\n" % ns     # the keyword is only known to a moving restraint
             t += "}\n"
             L.append("v.cfg moving %d %d %s" % (ch, ns, esc(t)))
@@ -364,8 +391,16 @@ def extra(rep, tier, rng):
     jobs += [("input%d" % i, "(whole configuration)", " ".join(t.split()[5:])[:60]) for i, t in enumerate(INPUT_CASES)]
     ninputs = len(jobs)
     jobs += [("struct%d" % i, "(whole configuration)", " ".join(t.split()[4:6]) + " … " + " ".join(t.split()[-8:-3])[:50]) for i, t in enumerate(STRUCT_CASES)]
+    nstructs = len(jobs)
+    jobs += [("walk%d" % i, "(two walkers in turn)", "newHillFrequency %d then %d, replicaUpdateFrequency %d" % w) for i, w in enumerate(WALK_CASES)]
     files = []
     for i, (obj, key, val) in enumerate(jobs):
+        if i >= nstructs:
+            L = walk_scenario(work, i, *WALK_CASES[i - nstructs])
+            f = os.path.join(work, "c%d.txt" % i)
+            open(f, "w").write("\n".join(L) + "\n")
+            files.append(f)
+            continue
         if i >= ninputs:
             L = scenario(work, i, STRUCT_CASES[i - ninputs], rng.fork(), via_script=(i % 2 == 1))
             f = os.path.join(work, "c%d.txt" % i)
@@ -414,6 +449,8 @@ def extra(rep, tier, rng):
             rep.violation("%s: %s %s %s -> the host process: %s %s" % (what, obj, key, val or "(empty)", what, err.strip().splitlines()[-1:] if err else ""),
                           open(f).read(), "fatal_" + re.sub(r"[^A-Za-z0-9]+", "_", "%s_%s_%s" % (obj, key, (val or "empty").replace("-", "m").replace(".", "p")))[:80], found_input=True, signature=sig)
             continue
+        if obj.startswith("walk"):
+            continue          # (two modules in turn, no reference bias: reaching the end of the file without a signal is the check)
         # the module stays usable and the reference bias is unaffected: energies of href identical to a run without the object
         e_ref_before = po.get((9 + PADS.get(jobs.index((obj, key, val)), 0), "e", 1))
         last = max((k[0] for k in po if k[1] == "e"), default=None)
